@@ -73,6 +73,10 @@ func c16Cases() []c16Case {
 			return "foo\n" + line + "\nbar\n"
 		case "in a block":
 			return "##!> assemble\nfoo\n" + line + "\n##!<\nbar\n"
+		case "alone before a marker":
+			return line + "\n##!=>\nbar\n"
+		case "alone before a store marker":
+			return "foo\n##!=>\n" + line + "\n##!=< keep\nbar\n##!=> keep\n"
 		case "in a nested block":
 			return "##!> assemble\nfoo\n##!> assemble\nx\n" + line + "\n##!<\n##!<\nbar\n"
 		case "after a good include":
@@ -86,7 +90,10 @@ func c16Cases() []c16Case {
 		}
 	}
 	for _, f := range c16LineFaults {
-		for _, where := range []string{"top level", "in a block", "in an include", "in a nested block", "after a good include", "in the second include", "in an include inside a block"} {
+		for _, where := range []string{"top level", "in a block", "in an include", "in a nested block", "after a good include", "in the second include", "in an include inside a block", "alone before a marker", "alone before a store marker"} {
+			if strings.HasPrefix(where, "alone before") && !strings.HasPrefix(f.Name, "entry RE2") {
+				continue // only entries can stand alone before a marker
+			}
 			if (where == "in a block" || where == "in a nested block") && (f.Name == "extra end marker" || f.Name == "missing end marker" || f.Name == "unsupported flag") {
 				continue // position makes it a different (or no) fault
 			}
@@ -161,7 +168,7 @@ func c16Cases() []c16Case {
 	for _, c := range [][]string{{"regex", "generate", "123460"}, {"regex", "update", "123460"}, {"regex", "compare", "123460"}, {"regex", "format", "123460"}, {"regex", "format", "nosuchinclude"}, {"regex", "format", "-c", "123460"}} {
 		out = append(out, c16Case{Fault: "missing assembly file", Where: "argument", Cmd: c[1], Args: c, Tree: c16Base(), Faulty: "123460"})
 	}
-	for _, v := range [][]string{{"-v", "4.x"}, {"-v", "four"}, {}, {"-v", ""}, {"-v", "1.2.3.4.5"}} {
+	for _, v := range [][]string{{"-v", "4.x"}, {"-v", "four"}, {}, {"-v", ""}, {"-v", "1.2.3.4.5"}, {"-v", "4.1.0-rc_1"}, {"-v", "4.1.0-"}, {"-v", "4.1.0-rc..1"}, {"-v", "4.1.0-rc 1"}, {"-v", "4.1.0+"}, {"-v", "4.1.0-rc1'"}, {"-v", "4.1.0-01"}, {"-v", "4.1.0.-rc1"}} {
 		out = append(out, c16Case{Fault: "invalid or missing version", Where: fmt.Sprint(v), Cmd: "update-copyright", Args: append([]string{"chore", "update-copyright", "-y", "2031"}, v...), Tree: c16Base()})
 	}
 	for _, a := range []string{"999999", "999999.yaml", "12345"} {
